@@ -30,7 +30,7 @@ var xSamples = []struct {
 	{"BE", xlatesample.BE}, {"Str", xlatesample.Str}, {"Switch", xlatesample.Switch}, {"SwitchRet", xlatesample.SwitchRet},
 	{"IfMerge", xlatesample.IfMerge}, {"Swap", xlatesample.Swap}, {"RangeSum", xlatesample.RangeSum}, {"RangeMinMax", xlatesample.RangeMinMax},
 	{"Count", xlatesample.Count}, {"CountRet", xlatesample.CountRet}, {"Struct", xlatesample.Struct}, {"Ret0", xlatesample.Ret0},
-	{"Collect", xlatesample.Collect}, {"Make", xlatesample.Make}, {"Search", xlatesample.Search}, {"Widen", xlatesample.Widen}, {"SortDesc", xlatesample.SortDesc}, {"StrOrder", xlatesample.StrOrder}, {"LoopCut", xlatesample.LoopCut}, {"FillPkt", xlatesample.FillPkt}, {"MapErr", xlatesample.MapErr}, {"SumTo", xlatesample.SumTo},
+	{"Collect", xlatesample.Collect}, {"Make", xlatesample.Make}, {"Search", xlatesample.Search}, {"Widen", xlatesample.Widen}, {"SortDesc", xlatesample.SortDesc}, {"StrOrder", xlatesample.StrOrder}, {"LoopCut", xlatesample.LoopCut}, {"FillPkt", xlatesample.FillPkt}, {"MapErr", xlatesample.MapErr}, {"SumTo", xlatesample.SumTo}, {"NormCmp", xlatesample.NormCmp}, {"GuardOrder", xlatesample.GuardOrder}, {"GuardPanic", xlatesample.GuardPanic},
 }
 
 // pure samples with a `for { }` loop take fuel
